@@ -544,3 +544,56 @@ func c12OtherLimits() []c12Input {
 	}
 	return out
 }
+
+// c12CatchLoops (after the ninth mutation round): every catchable failure path executed `n` times inside TRY / CATCH with
+// compound operands, so that an un-count lost on the error path shows in the counter (vs the walk, after every instruction)
+func c12CatchLoops(n int) []c12Input {
+	var out []c12Input
+	bodies := []func(a *c12L){
+		// SETITEM out of range on an Array / a Struct, the value being a fresh Array [1,2]
+		func(a *c12L) {
+			a.op(opcode.PUSH1).op(opcode.NEWARRAY).op(opcode.PUSH5).op(opcode.PUSH1).op(opcode.PUSH2).op(opcode.PUSH2).op(opcode.PACK).op(opcode.SETITEM)
+		},
+		func(a *c12L) {
+			a.op(opcode.PUSH1).op(opcode.NEWSTRUCT).op(opcode.PUSH5).op(opcode.PUSH1).op(opcode.PUSH2).op(opcode.PUSH2).op(opcode.PACKSTRUCT).op(opcode.SETITEM)
+		},
+		// ... on a container that is also held in the static slot (count > 0)
+		func(a *c12L) {
+			a.op(opcode.LDSFLD1).op(opcode.PUSH7).op(opcode.PUSH1).op(opcode.PUSH1).op(opcode.PACK).op(opcode.SETITEM)
+		},
+		// SETITEM out of range on a Buffer
+		func(a *c12L) {
+			a.op(opcode.PUSH2).op(opcode.NEWBUFFER).op(opcode.PUSH5).op(opcode.PUSH1).op(opcode.SETITEM)
+		},
+		// PICKITEM out of range on a nested Array; missing Map key (the Map holds compounds); out of range on a byte string
+		func(a *c12L) {
+			a.op(opcode.PUSH1).op(opcode.PUSH1).op(opcode.PACK).op(opcode.PUSH1).op(opcode.PACK).op(opcode.PUSH5).op(opcode.PICKITEM)
+		},
+		func(a *c12L) {
+			a.op(opcode.NEWARRAY0).op(opcode.PUSH3).op(opcode.PUSH1).op(opcode.PACKMAP).op(opcode.PUSH9).op(opcode.PICKITEM)
+		},
+		func(a *c12L) { a.op(opcode.LDSFLD1).op(opcode.PUSH9).op(opcode.PICKITEM) },
+		func(a *c12L) { a.op(opcode.PUSHDATA1, 2, 1, 2).op(opcode.PUSH5).op(opcode.PICKITEM) },
+		// THROW of a compound that is also referenced elsewhere / of a fresh one
+		func(a *c12L) { a.op(opcode.LDSFLD1).op(opcode.THROW) },
+		func(a *c12L) { a.op(opcode.PUSH1).op(opcode.PUSH2).op(opcode.PUSH2).op(opcode.PACK).op(opcode.THROW) },
+	}
+	for _, body := range bodies {
+		a := newC12L()
+		a.op(opcode.INITSSLOT, 2).op(opcode.PUSHINT16, byte(n&0xff), byte(n>>8)).op(opcode.STSFLD0)
+		a.op(opcode.PUSH3).op(opcode.NEWARRAY).op(opcode.STSFLD1)
+		a.label("L")
+		a.tryL("c", "")
+		body(a)
+		a.jumpL(opcode.ENDTRYL, "e")
+		a.label("c")
+		a.op(opcode.DROP)
+		a.jumpL(opcode.ENDTRYL, "e")
+		a.label("e")
+		a.op(opcode.LDSFLD0).op(opcode.DEC).op(opcode.DUP).op(opcode.STSFLD0)
+		a.jumpL(opcode.JMPIFL, "L")
+		a.op(opcode.DEPTH)
+		out = append(out, c12Input{Script: hx(a.resolve()), Base: 1, Limit: 100000000})
+	}
+	return out
+}
